@@ -97,18 +97,22 @@ var shareKinds = []string{
 	"coord+1", "coord-rand", "coord-zero", "coord-neg", "len-1", "len+1-zero", "len+1-rand", "len+1-dup",
 	"id-other-value", "id-other-value", "id-other-own", "id-unknown", "rebuild-same",
 }
-var shareKindsMulti = []string{"swap-coords", "drop-first", "coord+1", "coord-rand"}
+var shareKindsMulti = []string{"swap-coords", "swap-coords", "swap-coords", "drop-first", "drop-first", "coord+1", "coord-rand", "coord-zero"}
 var shareKindsCombined = []string{"cross-dealing", "cross-dealing"}
-var shareKindsPedersen = []string{"blind+1", "blind-rand", "blind-zero", "blind-neg", "swap-secret-blinding", "both+1", "blind-len-1", "secret-len+1"}
+var shareKindsPedersen = []string{"blind+1", "blind-rand", "blind-zero", "blind-neg", "swap-secret-blinding", "both+1", "blind-len-1", "secret-len+1",
+	"blind+1", "blind-rand", "blind-zero", "swap-secret-blinding", "both+1", "blind-len+1", "blind-len+1"}
 
 func (e *env[E, S]) shareCase(t *rapid.T, c *cfg) caseInfo {
 	w := newWorld(t, e, c)
 	tg := w.targets()
-	ti := rapid.IntRange(0, len(tg)-1).Draw(t, "target")
+	ti := drawTarget(t, len(w.deals))
 	dl := tg[ti]
 	w.baseline(t, dl, false)
 	n := c.pol.N
 	h := rapid.IntRange(0, n-1).Draw(t, "holder")
+	if multi := w.multiRowHolders(); len(multi) > 0 && rapid.Bool().Draw(t, "preferSeveralRows") {
+		h = rapid.SampledFrom(multi).Draw(t, "holderWithSeveralRows")
+	}
 	base := w.honest(dl, h)
 	nr := len(base.sec)
 
@@ -205,6 +209,8 @@ func (e *env[E, S]) shareCase(t *rapid.T, c *cfg) caseInfo {
 		cd.blind = cd.blind[:nr-1]
 	case "secret-len+1":
 		cd.sec = append(cd.sec, new(big.Int))
+	case "blind-len+1":
+		cd.blind = append(cd.blind, randBig(altSeed, "extb", q))
 	default:
 		panic("kind " + kind)
 	}
@@ -242,6 +248,25 @@ func (e *env[E, S]) shareCase(t *rapid.T, c *cfg) caseInfo {
 	return info
 }
 
+// drawTarget picks the (vector, shares) pair under test: one of the k dealings or, half of the
+// time when k >= 2, their combination (index k).
+func drawTarget(t *rapid.T, k int) int {
+	if k >= 2 && rapid.Bool().Draw(t, "targetCombined") {
+		return k
+	}
+	return rapid.IntRange(0, k-1).Draw(t, "target")
+}
+
+func (w *world[E, S]) multiRowHolders() []int {
+	var out []int
+	for h, rows := range w.holderRows {
+		if len(rows) > 1 {
+			out = append(out, h)
+		}
+	}
+	return out
+}
+
 func targetClass(ti, k int) string {
 	if ti >= k {
 		return "combined"
@@ -258,7 +283,7 @@ func TestVectorEntryAlteration(t *testing.T) {
 func (e *env[E, S]) vectorCase(t *rapid.T, c *cfg) caseInfo {
 	w := newWorld(t, e, c)
 	tg := w.targets()
-	ti := rapid.IntRange(0, len(tg)-1).Draw(t, "target")
+	ti := drawTarget(t, len(w.deals))
 	dl := tg[ti]
 	j := rapid.IntRange(0, w.d-1).Draw(t, "column")
 	kind := rapid.SampledFrom([]string{"random", "random", "identity", "other-entry", "plus-G", "neg", "double"}).Draw(t, "replacement")
@@ -461,7 +486,7 @@ func (w *world[E, S]) wrongLength(t tb, dl *dealing[E, S], kind string, pts2 []E
 func (e *env[E, S]) lengthCase(t *rapid.T, c *cfg) caseInfo {
 	w := newWorld(t, e, c)
 	tg := w.targets()
-	ti := rapid.IntRange(0, len(tg)-1).Draw(t, "target")
+	ti := drawTarget(t, len(w.deals))
 	dl := tg[ti]
 	kind := rapid.SampledFrom(lengthKinds).Draw(t, "length")
 	altSeed := rapid.Uint64().Draw(t, "altSeed")
@@ -485,7 +510,7 @@ func TestReconstruction(t *testing.T) {
 func (e *env[E, S]) reconCase(t *rapid.T, c *cfg) caseInfo {
 	w := newWorld(t, e, c)
 	tg := w.targets()
-	ti := rapid.IntRange(0, len(tg)-1).Draw(t, "target")
+	ti := drawTarget(t, len(w.deals))
 	dl := tg[ti]
 	if w.comb != nil {
 		w.checkCommitted(t, w.comb)
